@@ -571,7 +571,7 @@ func splitPlus(s string) []string {
 
 // C19: all-or-nothing emission at capacity; nil-target emitters track equally.
 func C19(r *vf.Run) {
-	r.Rule = "generated histories (a third of them re-basing with SetBase in mid-stream) replayed at every capacity from 0 to the program size (thorough) or at capacities 0-3 bytes short of every call boundary (quick): a call fits iff Len+size <= Cap; a call that does not fit must be refused leaving Bytes(), the target buffer, Len, PC and labels unchanged, a call that fits must be accepted; the same bound for bytes arriving by Append of a clone whose target is a separate buffer or the unused part of the arena the parent's window was cut from; a nil-target emitter (from NewEmitter(nil) or Clone(nil) of a buffered or buffer-less parent) runs in lockstep with a roomy one on PC, GetLabel and Flags; a cell is (kind of refused call, bytes short) or nil-target call kind"
+	r.Rule = "generated histories (a third of them re-basing with SetBase in mid-stream) replayed at every capacity from 0 to the program size (thorough) or at capacities 0-3 bytes short of every call boundary (quick): a call fits iff Len+size <= Cap; a call that does not fit must be refused leaving Bytes(), the target buffer, Len, PC and labels unchanged, a call that fits must be accepted; the same bound for bytes arriving by Append of a clone whose target is a separate buffer or the unused part of the arena the parent's window was cut from; single data blocks of 2^16-1 to 2^17+3 bytes into targets that fit exactly or are 1-4 bytes, 2^16 bytes or a whole block short; a nil-target emitter (from NewEmitter(nil) or Clone(nil) of a buffered or buffer-less parent) runs in lockstep with a roomy one on PC, GetLabel and Flags; a cell is (kind of refused call, bytes short) or nil-target call kind"
 	r.Assume = []string{"tracked flags and listing lines after a refused call are not among the observables the statement enumerates"}
 	if r.Phase("capacity") {
 		chunks := r.N(32, 1600)
